@@ -41,6 +41,7 @@ import (
 	"encoding/json"
 	"fmt"
 	"io"
+	"math/rand"
 	"os"
 	"os/exec"
 	"path/filepath"
@@ -99,16 +100,22 @@ var opWeights = []struct {
 }{
 	{"pub", 10}, {"pub-rtsp", 5}, {"pub-cust", 4}, {"sub-rtmp", 6}, {"sub-flv", 5}, {"sub-ws", 3}, {"sub-ts", 4}, {"sub-rtsp", 5},
 	{"send", 6}, {"leave", 10}, {"kick", 7}, {"stat", 5}, {"stat-all", 5}, {"lal-info", 1},
-	{"pull-start", 7}, {"pull-stop", 4}, {"rtp-pub", 3}, {"blacklist", 3}, {"hls-get", 4}, {"tick", 4}, {"has", 4},
+	{"pull-start", 7}, {"pull-stop", 4}, {"rtp-pub", 3}, {"blacklist", 3}, {"hls-get", 0}, {"tick", 4}, {"has", 4},
+}
+
+// opWeight: HLS requests only make sense with HLS on; with the real listener (L3) they also pass the ip blacklist,
+// so blacklist updates get more weight there.
+func opWeight(c Case, kind string, w int) int {
+	switch {
+	case kind == "hls-get" && c.Hls:
+		return 14
+	case kind == "blacklist" && c.L3:
+		return 9
+	}
+	return w
 }
 
 func genCase(t *rapid.T) Case {
-	var kinds []string
-	for _, ow := range opWeights {
-		for i := 0; i < ow.w; i++ {
-			kinds = append(kinds, ow.k)
-		}
-	}
 	c := Case{
 		Names:      rapid.SampledFrom([]int{1, 1, 2, 3}).Draw(t, "names"),
 		Reps:       rapid.IntRange(3, 10).Draw(t, "reps"),
@@ -129,6 +136,17 @@ func genCase(t *rapid.T) Case {
 	if c.L3 {
 		c.Hls = true
 	}
+	var kinds []string
+	for _, ow := range opWeights {
+		for i := 0; i < opWeight(c, ow.k, ow.w); i++ {
+			kinds = append(kinds, ow.k)
+		}
+	}
+	// rapid biases every draw towards small values (the first kinds would dominate): the CONTENT of the operation lists
+	// comes from a PRNG seeded by one rapid draw, only the sizes are rapid draws (so that shrinking still removes
+	// workers and operations)
+	rnd := rand.New(rand.NewSource(int64(rapid.Uint64().Draw(t, "opSeed"))))
+	pauses := []int{0, 0, 0, 0, 0, 0, 1, 1, 1, 1, 20, 20, 200, 200, 1500, 1500, 60000, 260000}
 	k := rapid.IntRange(2, 8).Draw(t, "workers")
 	maxOps := 10
 	if pbt.Thorough() {
@@ -140,13 +158,11 @@ func genCase(t *rapid.T) Case {
 		var ops []Op
 		for i := 0; i < n; i++ {
 			op := Op{
-				Kind:  rapid.SampledFrom(kinds).Draw(t, "kind"),
-				Name:  rapid.IntRange(0, c.Names-1).Draw(t, "name"),
-				Arg:   rapid.IntRange(0, 9).Draw(t, "arg"),
-				Pause: rapid.SampledFrom([]int{0, 0, 0, 0, 0, 0, 1, 1, 1, 1, 20, 20, 200, 200, 1500, 1500, 60000, 260000}).Draw(t, "pause"),
-			}
-			if rapid.IntRange(0, 7).Draw(t, "fresh") == 0 {
-				op.Fresh = true
+				Kind:  kinds[rnd.Intn(len(kinds))],
+				Name:  rnd.Intn(c.Names),
+				Arg:   rnd.Intn(10),
+				Pause: pauses[rnd.Intn(len(pauses))],
+				Fresh: rnd.Intn(8) == 0,
 			}
 			ops = append(ops, op)
 		}
@@ -154,7 +170,7 @@ func genCase(t *rapid.T) Case {
 		c.Workers = append(c.Workers, ops)
 	}
 	if rapid.IntRange(0, 2).Draw(t, "disposeMid") == 0 {
-		c.DisposeAt = rapid.IntRange(1, total).Draw(t, "disposeAt")
+		c.DisposeAt = 1 + rnd.Intn(total)
 	}
 	return c
 }
@@ -479,6 +495,6 @@ func run(c Case) *pbt.Violation {
 func TestConcurrency(t *testing.T) {
 	pbt.Run(t, pbt.Spec[Case]{
 		ID: "C20", Name: "workload", Gen: genCase, Run: run, Classify: classify,
-		Quick: 20, Thorough: 300, Isolate: true,
+		Quick: 20, Thorough: 260, Isolate: true,
 	})
 }
